@@ -294,7 +294,7 @@ Qed.
 Theorem same_chunks_same_result :
   forall (A S : Type) (draw : S -> Z * S) (work_rows : nat -> nat -> Z -> list (record A))
          (cell_order : list Z) (s : S) (n p1 p2 c : nat) (W1 W2 : world) (s1 s2 : list nat),
-  (1 <= p1)%nat -> (1 <= p2)%nat ->
+  (1 <= p1)%nat -> (1 <= p2)%nat -> (1 <= c)%nat ->
   eff_chunk n p1 c = eff_chunk n p2 c ->
   let cs := eff_chunk n p1 c in
   let k := length (chunks n cs) in
@@ -306,7 +306,10 @@ Theorem same_chunks_same_result :
   mapping_result A S draw work_rows cell_order s n p1 c W1 s1 =
   final_list A (chunk_work A work_rows n cs) cell_order (draws S draw k s) (seq 0 k).
 Proof.
-  intros A S draw work_rows co s n p1 p2 c W1 W2 s1 s2 Hp1 Hp2 He cs k Hz1 Hz2 HP1 HP2 ND.
+  (* 1 <= c (audit 3, item 13) is a hypothesis of FAITHFULNESS, not of the proof: with
+     chunk_size 0 the real row iterator yields empty chunks for ever, whereas `chunks n 0` is
+     the empty list *)
+  intros A S draw work_rows co s n p1 p2 c W1 W2 s1 s2 Hp1 Hp2 _ He cs k Hz1 Hz2 HP1 HP2 ND.
   assert (R : forall W p sg, (1 <= p)%nat -> (forall w, (w < k)%nat -> code W w = 0%Z) ->
               eff_chunk n p c = cs ->
               mapping_result A S draw work_rows co s n p c W sg =
@@ -409,23 +412,27 @@ Proof.
   subst r. destruct variant; [apply (H winnow_dict) | apply (H winnow_list)].
 Qed.
 
-(* hence: whatever the schedule and the bound, a clean drain adds the partial sums up in dispatch
-   order (`add` is any operation); two runs with clean workers agree *)
+(* hence: for a FIXED work split (k work units with partial sums `partial`, as produced by ONE
+   worker count n) and whatever the schedule, a clean drain adds the partial sums up in dispatch
+   order (`add` is any operation); two runs with clean workers agree.  (Audit 3, item 13: the
+   former statement let two worker counts n1 n2 share k and partial; in the real
+   _precompute_summary_stats_from_h5ad_and_lookup n_processors determines the split - n_per =
+   ceil(n_cells / n_processors) - hence k and the partial sums.) *)
 Theorem stats_merge_order_fixed :
-  forall (A : Type) (add : A -> A -> A) (zero : A) (partial : nat -> A) (W1 W2 : world) (n1 n2 k : nat),
-  (1 <= n1)%nat -> (1 <= n2)%nat ->
+  forall (A : Type) (add : A -> A -> A) (zero : A) (partial : nat -> A) (W1 W2 : world) (n k : nat),
+  (1 <= n)%nat ->
   (forall w, (w < k)%nat -> code W1 w = 0%Z) -> (forall w, (w < k)%nat -> code W2 w = 0%Z) ->
-  stats_result A add zero partial W1 n1 k = Some (merge_stats A add zero partial k) /\
-  stats_result A add zero partial W2 n2 k = stats_result A add zero partial W1 n1 k.
+  stats_result A add zero partial W1 n k = Some (merge_stats A add zero partial k) /\
+  stats_result A add zero partial W2 n k = stats_result A add zero partial W1 n k.
 Proof.
-  intros A add zero partial W1 W2 n1 n2 k H1 H2 Hz1 Hz2.
-  assert (R : forall W n, (1 <= n)%nat -> (forall w, (w < k)%nat -> code W w = 0%Z) ->
+  intros A add zero partial W1 W2 n k H1 Hz1 Hz2.
+  assert (R : forall W, (forall w, (w < k)%nat -> code W w = 0%Z) ->
               stats_result A add zero partial W n k = Some (merge_stats A add zero partial k)).
-  { intros W n Hn Hz. unfold stats_result, merge_stats.
-    pose proof (pool_clean W n k Hn Hz) as Hc. rewrite Hc.
+  { intros W Hz. unfold stats_result, merge_stats.
+    pose proof (pool_clean W n k H1 Hz) as Hc. rewrite Hc.
     destruct (starts_are_dispatch_order false W n k) as (m & _ & _ & Hok). cbn zeta in Hok.
     rewrite (Hok Hc). reflexivity. }
-  rewrite (R W1 n1 H1 Hz1), (R W2 n2 H2 Hz2). split; reflexivity.
+  rewrite (R W1 Hz1), (R W2 Hz2). split; reflexivity.
 Qed.
 
 (* the order is not `seq 0 k` by fiat: a raise cuts it short (worker 0 fails at once, two slots:
